@@ -346,3 +346,71 @@ def universe(tier):
     specs.append(("strided", 3, "size_t", True))
     specs.append(("linear", 3, "float", True))
     return specs
+
+
+# --------------------------------------------------------------------------
+# IO7: a reader may reject a stream only for framing, width or stream-state reasons
+# --------------------------------------------------------------------------
+def unjustified_throws(s, stream_arg=0):
+    """throw sites not explained by a failed stream-state test or by bytes read differing from a constant (framing word,
+    width word).  The deciding literals of a throw are those whose negation the normal return requires; if there are
+    none (throws inside a summarised loop), any failing literal of an accepted kind on the throw's path explains it."""
+    ret_lits = None
+    for c, _ in s.ret_cond:
+        cl = ir.common_lits(c)
+        ret_lits = cl if ret_lits is None else (ret_lits & cl)
+    ret_lits = ret_lits or frozenset()
+
+    def kind(l):
+        pos, core = (False, l[1]) if isinstance(l, tuple) and l and l[0] == 'not' else (True, l)
+        if not isinstance(core, tuple) or not core:
+            return None
+        if not pos and state_ok_epoch(core, stream_arg) is not None:
+            return "state"
+        if core[0] == 'cmp' and core[1] in ('eq', 'ne'):
+            a, b = core[2], core[3]
+            failing = (core[1] == 'eq') != pos
+            if failing and ((a[0] == 'wr' and b[0] == 'ci') or (b[0] == 'wr' and a[0] == 'ci')):
+                return "const"
+            if (a[0] == 'wr' or b[0] == 'wr' or any(x[0] == 'wr' for x in ir.atoms(core))):
+                return "data"
+        if core[0] == 'cmp':
+            if any(x[0] == 'wr' for x in ir.atoms(core)):
+                return "data"
+        return None
+    bad = []
+    for c in s.calls:
+        if c.name != THROW:
+            continue
+        lits = []
+
+        def collect(t):
+            if isinstance(t, tuple) and t and t[0] in ('and', 'or'):
+                collect(t[1])
+                collect(t[2])
+            else:
+                lits.append(t)
+        collect(c.cond)
+        deciding = [l for l in lits if ir.mk_not(l) in ret_lits]
+        if deciding:
+            kinds = {kind(l) for l in deciding}
+            if "data" in kinds and not (kinds & {"state", "const"}):
+                bad.append(c)
+        else:
+            if not any(kind(l) in ("state", "const") for l in lits):
+                bad.append(c)
+    return bad
+
+
+def h_real_reader(layer, N, T, M):
+    a = "array<verif::vd<%s, %d>>" % (T, M)
+    B = {"strided": "strided<verif::vd<std::size_t, %d>, %s>" % (N, a), "morton": "morton<verif::vd<std::size_t, %d>, %s, false>" % (N, a),
+         "hilbert": "hilbert<verif::vd<std::size_t, 2>, %s>" % a, "stack": "affine<linear<strided<verif::vd<std::size_t, %d>, %s>>>" % (N, a)}[layer]
+    body = "  using O = %s::owning_data_t;\n  new (a1) O(O::read_binary(*a0));\n" % B
+    return Harness("iorr_%s_%d_%s%d" % (layer, N, T, M), [("std::istream *", 'is'), ("void *", 'result')], body, meta={"layer": layer, "N": N, "T": T, "M": M})
+
+
+def real_readers(tier):
+    hs = [h_real_reader("strided", 3, "float", 3), h_real_reader("morton", 2, "float", 3), h_real_reader("morton", 3, "double", 2), h_real_reader("hilbert", 2, "float", 2), h_real_reader("stack", 3, "float", 3)]
+    harness.build(hs, "io_real", per_tu=2)
+    return hs
